@@ -1,11 +1,377 @@
 import StorageModel.Driver.Common
+import StorageModel.Codec.CompoundKey
+import StorageModel.Codec.Bucket
 /- model driver for C13: `run spec` reads case lines on stdin and prints one output line per case
-   (spec = false: the engine model's output; spec = true: the spec's verdict). -/
-namespace StorageModel.Driver.C13
-open StorageModel.Driver
+   (spec = false: the engine model's output; spec = true: the tokens the property demands — the
+   check requires every spec token to occur among the implementation's tokens).
 
-def step (_line : String) : String := "not-implemented"
-def specStep (_line : String) : String := "not-implemented"
+   case lines
+     k <w>...                 EncodeStringSlice + DecodeStringSlice of the result
+     d <w>                    DecodeStringSlice of arbitrary bytes
+     j <w>... | <w>...        are the two encodings equal?
+     e c=<chk> m=<map> <op>.. entity script: ops `p…` (pre-state, own transaction, no checker) and
+                              `w…` (the write under the checker); then every getter on every field
+   value text: N | S<wire> | i<int> | I<int> | n<int> | F<hex16> | B0 | B1 | T<hex> | M(<wire>=V,…) | L(V,…) | U -/
+namespace StorageModel.Driver.C13
+open StorageModel StorageModel.Driver StorageModel.Codec
+
+/-! ## text helpers -/
+
+def wire (b : Bytes) : String := Bytes.toWire b
+def listText (xs : List Bytes) : String := "[" ++ ",".intercalate (xs.map wire) ++ "]"
+
+def hex16 (n : Nat) : String :=
+  String.ofList ((List.range 16).map fun i => Bytes.hexDigit ((n / 16 ^ (15 - i)) % 16))
+
+def parseHexNat (s : List Char) : Option Nat :=
+  s.foldl (fun acc c => do let a ← acc; let d ← Bytes.hexVal c; pure (a * 16 + d)) (some 0)
+
+def isTerm (c : Char) : Bool := c == ',' || c == ')' || c == '='
+
+def spanTok (s : List Char) : List Char × List Char := s.span (fun c => !isTerm c)
+
+def parseInt (s : List Char) : Option Int :=
+  match s with
+  | '-' :: r => (String.ofList r).toNat?.map fun n => -(n : Int)
+  | r => (String.ofList r).toNat?.map fun n => (n : Int)
+
+def parseWire (s : List Char) : Option Bytes := Bytes.ofHex (String.ofList s)
+
+mutual
+partial def parseV (s : List Char) : Option (Value × List Char) :=
+  match s with
+  | 'N' :: r => some (.nil, r)
+  | 'U' :: r => some (.unsupported, r)
+  | 'B' :: '0' :: r => some (.bool false, r)
+  | 'B' :: '1' :: r => some (.bool true, r)
+  | 'S' :: r => let (t, r') := spanTok r; (parseWire t).map fun b => (.str b, r')
+  | 'T' :: r => let (t, r') := spanTok r; (parseWire t).map fun b => (.time b, r')
+  | 'i' :: r => let (t, r') := spanTok r; (parseInt t).map fun i => (.i32 i, r')
+  | 'I' :: r => let (t, r') := spanTok r; (parseInt t).map fun i => (.i64 i, r')
+  | 'n' :: r => let (t, r') := spanTok r; (parseInt t).map fun i => (.goInt i, r')
+  | 'F' :: r => let (t, r') := spanTok r; (parseHexNat t).map fun n => (.f64 n, r')
+  | 'M' :: '(' :: ')' :: r => some (.map [], r)
+  | 'M' :: '(' :: r => (parseKvs r).map fun (kvs, r') => (.map kvs, r')
+  | 'L' :: '(' :: ')' :: r => some (.list [], r)
+  | 'L' :: '(' :: r => (parseXs r).map fun (xs, r') => (.list xs, r')
+  | _ => none
+partial def parseKvs (s : List Char) : Option (List (Bytes × Value) × List Char) := do
+  let (kt, r) := spanTok s
+  let k ← parseWire kt
+  match r with
+  | '=' :: r1 =>
+    let (v, r2) ← parseV r1
+    match r2 with
+    | ',' :: r3 => let (rest, r4) ← parseKvs r3; pure ((k, v) :: rest, r4)
+    | ')' :: r3 => pure ([(k, v)], r3)
+    | _ => none
+  | _ => none
+partial def parseXs (s : List Char) : Option (List Value × List Char) := do
+  let (v, r2) ← parseV s
+  match r2 with
+  | ',' :: r3 => let (rest, r4) ← parseXs r3; pure (v :: rest, r4)
+  | ')' :: r3 => pure ([v], r3)
+  | _ => none
+end
+
+def parseValue (s : String) : Option Value :=
+  match parseV s.toList with
+  | some (v, []) => some v
+  | _ => none
+
+mutual
+partial def showV : Value → String
+  | .nil => "N"
+  | .unsupported => "U"
+  | .bool b => if b then "B1" else "B0"
+  | .str s => "S" ++ wire s
+  | .time p => "T" ++ wire p
+  | .i32 i => "i" ++ toString i
+  | .i64 i => "I" ++ toString i
+  | .goInt i => "n" ++ toString i
+  | .f64 n => "F" ++ hex16 n
+  | .map kvs => "M(" ++ ",".intercalate (kvs.map fun (k, v) => wire k ++ "=" ++ showV v) ++ ")"
+  | .list xs => "L(" ++ ",".intercalate (xs.map showV) ++ ")"
+end
+
+partial def dumpB (es : Bkt) : String :=
+  "(" ++ ",".intercalate (es.map fun (k, n) =>
+    match n with
+    | .val b => wire k ++ "=" ++ wire b
+    | .sub c => wire k ++ dumpB c) ++ ")"
+
+def errName : BErr → String
+  | .keyRequired => "keyRequired"
+  | .keyTooLarge => "keyTooLarge"
+  | .incompatible => "incompatible"
+  | .bucketNameRequired => "bucketNameRequired"
+  | .nestedMaps => "nestedMaps"
+  | .nestedLists => "nestedLists"
+  | .unsupported => "unsupported"
+  | .required => "required"
+
+def keyErrName : KeyErr → String
+  | .encodeTooLong => "encodeTooLong"
+  | .badVarint => "badVarint"
+  | .decodeTooLong => "decodeTooLong"
+  | .short => "short"
+
+/-! ## compound keys -/
+
+def parseWires (ws : List String) : Option (List Bytes) := ws.mapM Bytes.ofHex
+
+def decText (r : Except KeyErr (List Bytes)) : String :=
+  match r with
+  | .ok xs => "dec=" ++ listText xs
+  | .error e => "dec=err:" ++ keyErrName e
+
+def stepK (ws : List String) : String :=
+  match parseWires ws with
+  | none => "bad-case"
+  | some xs =>
+    match encodeStringSlice xs with
+    | .error e => "enc=err:" ++ keyErrName e ++ " dec=-"
+    | .ok enc => "enc=" ++ wire enc ++ " " ++ decText (decodeStringSlice enc)
+
+def specK (ws : List String) : String :=
+  match parseWires ws with
+  | none => "bad-case"
+  | some xs =>
+    if xs.all (fun x => x.length ≤ maxLinkedSetKeySize) then "dec=" ++ listText xs
+    else "enc=err:encodeTooLong"
+
+def splitBar (ws : List String) : List String × List String :=
+  let (a, b) := ws.span (· != "|")
+  (a, b.drop 1)
+
+def stepJ (ws : List String) : String :=
+  let (a, b) := splitBar ws
+  match parseWires a, parseWires b with
+  | some xs, some ys =>
+    match encodeStringSlice xs, encodeStringSlice ys with
+    | .ok e1, .ok e2 => if e1 = e2 then "eq=1" else "eq=0"
+    | _, _ => "eq=err"
+  | _, _ => "bad-case"
+
+def specJ (ws : List String) : String :=
+  let (a, b) := splitBar ws
+  match parseWires a, parseWires b with
+  | some xs, some ys =>
+    if (xs ++ ys).all (fun x => x.length ≤ maxLinkedSetKeySize) then (if xs = ys then "eq=1" else "eq=0")
+    else "eq=err"
+  | _, _ => "bad-case"
+
+/-! ## entity scripts -/
+
+structure Op where
+  pre : Bool
+  code : String
+  field : Bytes
+  op : FieldOp
+
+def strListOf (v : Value) : Option (List Bytes) :=
+  match v with
+  | .list xs => xs.mapM fun x => match x with
+    | .str s => some s
+    | _ => none
+  | _ => none
+
+def mkFieldOp (code : String) (v : Value) : Option FieldOp :=
+  match code, v with
+  | "str", .str s => some (.str s)
+  | "strp", .str s => some (.strP (some s))
+  | "strp", .nil => some (.strP none)
+  | "rstr", .str s => some (.requiredStr s)
+  | "gstr", .str s => some (.getAndSetStr s)
+  | "i32", .i32 i => some (.i32 i)
+  | "i64", .i64 i => some (.i64 i)
+  | "f64", .f64 b => some (.f64 b)
+  | "bool", .bool b => some (.bool b)
+  | "time", .time p => some (.time p)
+  | "timep", .time p => some (.timeP (some p))
+  | "timep", .nil => some (.timeP none)
+  | "sl", l => (strListOf l).map .strList
+  | "gsl", l => (strListOf l).map .getAndSetStrList
+  | "map", .map kvs => some (.map kvs true)
+  | "mapf", .map kvs => some (.map kvs false)
+  | "list", .list xs => some (.list xs)
+  | "nil", .nil => some .setNil
+  | _, _ => none
+
+def parseOp (tok : String) : Option Op :=
+  match tok.splitOn ":" with
+  | [pc, fw, vt] =>
+    match pc.toList with
+    | ph :: code => do
+      let f ← Bytes.ofHex fw
+      let v ← parseValue vt
+      let op ← mkFieldOp (String.ofList code) v
+      pure { pre := ph == 'p', code := String.ofList code, field := f, op := op }
+    | [] => none
+  | _ => none
+
+def parseChk (t : String) : Option Checker :=
+  if t == "c=-" then some none
+  else if t.startsWith "c=." then
+    let body := (t.drop 3).toString
+    let names := if body.isEmpty then some [] else (body.splitOn ",").mapM Bytes.ofHex
+    names.map fun ns => some (fun f => ns.contains f)
+  else none
+
+def parseMappings (t : String) : Option (List (Bytes × Bytes)) :=
+  if t == "m=-" then some []
+  else if t.startsWith "m=" then
+    ((t.drop 2).toString.splitOn ",").mapM fun p =>
+      match p.splitOn ">" with
+      | [a, b] => do pure ((← Bytes.ofHex a), (← Bytes.ofHex b))
+      | _ => none
+  else none
+
+def strReadText : StrRead → String
+  | .nil => "nil"
+  | .str s => "S" ++ wire s
+  | .ofBool b => "S" ++ wire (Bytes.ofString (if b then "true" else "false"))
+  | .ofInt i => "S" ++ wire (Bytes.ofString (toString i))
+  | .opaque => "*"
+  | .panic => "panic"
+
+def optText {α : Type} (f : α → String) : Option α → String
+  | none => "nil"
+  | some a => f a
+
+def floatBits (r : FloatRead) : String :=
+  match r with
+  | .bits b => hex16 b
+  | .ofInt i => hex16 (Float.ofInt i).toBits.toNat
+
+def resText {α : Type} (f : α → String) : Res α → String
+  | .ok a => f a
+  | .panic => "panic"
+
+def fieldReads (es : Bkt) (f : Bytes) : List String :=
+  let p := "f:" ++ wire f ++ ":"
+  let kind := match look es f with
+    | none => "absent"
+    | some (.val _) => "val"
+    | some (.sub _) => "bucket"
+  [ p ++ "k=" ++ kind,
+    p ++ "raw=" ++ optText wire (bget es f),
+    p ++ "s=" ++ strReadText (getString es f),
+    p ++ "b=" ++ optText (fun b => if b then "1" else "0") (getBool es f),
+    p ++ "i32=" ++ optText toString (getInt32 es f),
+    p ++ "i64=" ++ optText toString (getInt64 es f),
+    p ++ "f64=" ++ optText floatBits (getFloat64 es f),
+    p ++ "t=" ++ optText (fun b => "T" ++ wire b) (getTime es f),
+    p ++ "sl=" ++ listText ((getStringList es f).getD []),
+    p ++ "m=" ++ resText showV (getMap es f),
+    p ++ "l=" ++ resText (optText showV) (getList es f) ]
+
+def dedupKeep (xs : List Bytes) : List Bytes :=
+  xs.foldl (fun acc x => if acc.contains x then acc else acc ++ [x]) []
+
+/-- observation of a GetAndSet operation, taken on the state before it -/
+def obsOf (tb : TB) (o : Op) (chk : Checker) (idx : Nat) : List String :=
+  match o.op with
+  | .getAndSetStr s =>
+    match getAndSetStringObs tb o.field s chk with
+    | (old, some c) => [s!"o{idx}=" ++ strReadText old ++ "/" ++ (if c then "1" else "0")]
+    | (_, none) => [s!"o{idx}=*/*"]
+  | .getAndSetStrList _ =>
+    let (old, c) := getAndSetStringListObs tb o.field chk
+    [s!"o{idx}=" ++ listText (old.getD []) ++ "/" ++ (if c then "1" else "0")]
+  | _ => []
+
+def runOps (tb : TB) (ops : List Op) (chkPre chkW : Checker) (idx : Nat) (obs : List String) : TB × List String :=
+  match ops with
+  | [] => (tb, obs)
+  | o :: r =>
+    let chk := if o.pre then chkPre else chkW
+    let ob := if tb.err.isNone then obsOf tb o chk idx else []
+    runOps (applyOp tb o.field o.op chk) r chkPre chkW (idx + 1) (obs ++ ob)
+
+structure Script where
+  chk : Checker
+  ops : List Op
+
+def parseScript (toks : List String) : Option Script :=
+  match toks with
+  | c :: m :: rest => do
+    let chk ← parseChk c
+    let mp ← parseMappings m
+    let ops ← rest.mapM parseOp
+    let chk' := if mp.isEmpty then chk else withFieldOverrides chk mp
+    pure { chk := chk', ops := ops }
+  | _ => none
+
+def stepE (toks : List String) : String :=
+  match parseScript toks with
+  | none => "bad-case"
+  | some sc =>
+    let (tb, obs) := runOps { es := [] } sc.ops none sc.chk 0 []
+    match tb.err with
+    | some e => "err=" ++ errName e
+    | none =>
+      let fields := dedupKeep (sc.ops.map (·.field))
+      " ".intercalate (["err=none"] ++ obs ++ (fields.flatMap (fieldReads tb.es)) ++ ["dump=" ++ dumpB tb.es])
+
+/-! ### the spec of an entity script: the last effective write of each field decides what its
+    primary getter returns; a field without effective write is absent -/
+
+def demands (f : Bytes) (op : Option FieldOp) : List String :=
+  let p := "f:" ++ wire f ++ ":"
+  let allNil := [p ++ "s=nil", p ++ "b=nil", p ++ "i32=nil", p ++ "i64=nil", p ++ "f64=nil", p ++ "t=nil"]
+  match op with
+  | none => [p ++ "k=absent"]
+  | some (.str s) | some (.strP (some s)) | some (.requiredStr s) | some (.getAndSetStr s) => [p ++ "s=S" ++ wire s]
+  | some (.strP none) | some (.timeP none) | some .setNil => allNil
+  | some (.i32 i) => [p ++ "i32=" ++ toString i, p ++ "i64=" ++ toString i]
+  | some (.i64 i) => [p ++ "i64=" ++ toString i]
+  | some (.f64 b) => [p ++ "f64=" ++ hex16 b]
+  | some (.bool b) => [p ++ "b=" ++ (if b then "1" else "0")]
+  | some (.time t) | some (.timeP (some t)) => [p ++ "t=T" ++ wire t]
+  | some (.strList xs) | some (.getAndSetStrList xs) => [p ++ "sl=" ++ listText (sortDedup xs)]
+  | some (.map kvs _) => [p ++ "m=" ++ showV (normalize (.map kvs))]
+  | some (.list xs) => [p ++ "l=" ++ showV (normalize (.list xs))]
+
+def specE (toks : List String) : String :=
+  match parseScript toks with
+  | none => "bad-case"
+  | some sc =>
+    let (tb, _) := runOps { es := [] } sc.ops none sc.chk 0 []
+    match tb.err with
+    | some _ => "-"      -- the property makes no demand on a refused write
+    | none =>
+      let fields := dedupKeep (sc.ops.map (·.field))
+      let eff (f : Bytes) : Option FieldOp :=
+        sc.ops.foldl (fun cur o =>
+          if o.field = f && (o.pre || (match o.op with
+              | .setNil => true
+              | _ => match sc.chk with
+                | none => true
+                | some g => g f)) then some o.op else cur) none
+      let sup (op : Option FieldOp) : Bool := match op with
+        | some (.map kvs _) => supported (.map kvs)
+        | some (.list xs) => supported (.list xs)
+        | _ => true
+      " ".intercalate (["err=none"] ++ fields.flatMap fun f => if sup (eff f) then demands f (eff f) else [])
+
+def step (line : String) : String :=
+  match splitSp line with
+  | "k" :: ws => stepK ws
+  | ["d", w] => match Bytes.ofHex w with
+    | some b => decText (decodeStringSlice b)
+    | none => "bad-case"
+  | "j" :: ws => stepJ ws
+  | "e" :: toks => stepE toks
+  | _ => "bad-case"
+
+def specStep (line : String) : String :=
+  match splitSp line with
+  | "k" :: ws => specK ws
+  | ["d", _] => "-"
+  | "j" :: ws => specJ ws
+  | "e" :: toks => specE toks
+  | _ => "bad-case"
 
 def run (spec : Bool) : IO Unit := forEachLine (if spec then specStep else step)
 
